@@ -276,6 +276,7 @@ func genC10(g *rand.Rand, tier string) any {
 	if nu+ns == 0 {
 		ns = 1
 	}
+	session := g.IntN(3) == 0
 	id := 1
 	for i := 0; i < nu; i++ {
 		c := &CallSpec{ID: id, Kind: KUnary, ReqLen: g.IntN(30), RespLen: g.IntN(30)}
@@ -323,8 +324,13 @@ func genC10(g *rand.Rand, tier string) any {
 		default: // handler waits for its context
 			c.CProg = []Op{{K: 'f', A: nil, B: []Op{{K: 'R'}}}}
 			c.HProg = []Op{{K: 'w'}}
+			if session {
+				// one of a group of streams torn down together: returns once all of
+				// the group have been cancelled (its caller never cancels it alone)
+				c.HProg = []Op{{K: 'B'}}
+			}
 		}
-		if g.IntN(3) == 0 {
+		if g.IntN(3) == 0 && !(len(c.HProg) == 1 && c.HProg[0].K == 'B') {
 			// the caller resets the stream (cancels) at some point, possibly just
 			// before the connection ends
 			var b []Op
